@@ -271,6 +271,17 @@ def two_store_programs(tier):
     return P
 
 
+def held_reducer_program():
+    """A's reducer is held up inside reduce() (script "G": raises "in", waits for "go") while a client
+    registers a reducer in B at run time and B goes on working; only then is A let go"""
+    from instances import D, O, S
+    def on(st, ops):
+        return [dict(o, st=st) for o in ops]
+    return {"c1": on("A", [D(5), O("stop"), O("get_state"), O("metrics")]),
+            "c2": on("A", [S("wait", "in")]) + on("B", [S("add_reducer", "r2"), D(1), D(2, "trait")]) +
+                  on("A", [S("signal", "go")]) + on("B", [O("stop"), O("get_state"), O("metrics")])}
+
+
 def c19(ctx, finish):
     import checkmain
     import instances
@@ -298,18 +309,24 @@ def c19(ctx, finish):
         subs = {"x1": {"kind": "direct"}, "f1": {"kind": "direct"}, "s2": {"kind": "chan", "cap": 1, "pol": "block"}}
         variants = [("block", 2, "block", 1), ("oldest", 1, "block", 2)] if q else \
                    [("block", 2, "block", 2), ("oldest", 1, "block", 2), ("latest", 1, "oldest", 1), ("block", 1, "latest", 2)]
-        progs = two_store_programs(ctx.tier)
+        acts[5] = 2
+        variants.append(("block", 2, "block", 2, "held"))
         reps = 60 if q else 400
-        for vi, (pa, ca, pb, cb) in enumerate(variants):
+        for vi, var in enumerate(variants):
+            pa, ca, pb, cb = var[:4]
+            held = len(var) > 4      # run-time registration in one store while the other's reducer is held up
+            progs = [held_reducer_program()] if held else two_store_programs(ctx.tier)
             mk = lambda name, pol, cap: families._i(name, [{"c1": [], "c2": [], "c3": []}], acts, cap=cap, pol=pol, subs=subs,
-                                                    red_script={"r1": {0: instances.red("D"), 1: instances.red("D", instances.eff("task"))}},
-                                                    max_tasks=4, cb_reads=False)
+                                                    red_script={"r1": {0: instances.red("D"), 1: instances.red("D", instances.eff("task")),
+                                                                       2: instances.red("G")},
+                                                                "r2": {0: instances.red("D"), 1: instances.red("D"), 2: instances.red("D")}},
+                                                    max_tasks=4, cb_reads=False, kinds=(0, 1, 2), fine_reg=held)
             ia, ib = mk("twoA%d" % vi, pa, ca), mk("twoB%d" % vi, pb, cb)
             ca_, cb_ = instances.harness_config(ia), instances.harness_config(ib)
             if vi % 2 == 0:       # two stores with the same, non-default name
                 ca_["name"] = cb_["name"] = "session"
             doc = {"configs": {"A": ca_, "B": cb_},
-                   "runs": [{"id": i, "prog": progs[i % len(progs)]} for i in range(reps)]}
+                   "runs": [{"id": i, "prog": progs[i % len(progs)]} for i in range(reps if not held else max(10, reps // 4))]}
             path = os.path.join(d, "two%d.json" % vi)
             json.dump(doc, open(path, "w"))
             tr = os.path.join(d, "two%d.trace.ndjson" % vi)
